@@ -593,6 +593,8 @@ def rule_exported_locked(ctx, rep, pid):
                   "%s touches the structure without holding its mutex" % name, [b.where() for b in bad[:2]])
 
 
+META["explanation"] += " " + 'Also (fifth reading): return case table of dequeue (NULL iff the emptiness test held, WOULDBLOCK iff a successor wait reported it in non-blocking mode, a node otherwise).'
+
 RULES = [
     ("C10.nodeinit", rule_nodeinit),
     ("C10.append", rule_append),
